@@ -16,14 +16,14 @@ PLATFORMS = [
      "platform_release": "23.1.0", "platform_version": "Darwin Kernel Version 23.1.0 tegra", "platform_python_implementation": "PyPy",
      "implementation_name": "pypy"},
 ]
-EXTRA_SETS: list[list[str]] = [[], ["a"], ["foo-bar"], ["a", "foo-bar"], ["b"]]
+EXTRA_SETS: list[list[str]] = [[], ["a"], ["foo-bar"], ["a", "foo-bar"], ["b"], ["inotify", "a"]]
 
 PY2 = ["2.7", "3.6", "3.7", "3.8", "3.9", "3.10", "3.11", "3.12", "4.0"]
 PY3 = ["3.6.15", "3.7.0", "3.8.0", "3.8.10", "3.9.1", "3.10.0", "3.10.12", "3.11.4", "3.12.0"]
 VOPS = ["==", "!=", "<", "<=", ">", ">=", "~="]
 STR_VARS = {
     "os_name": ["posix", "nt", "java"],
-    "sys_platform": ["linux", "win32", "darwin", "cygwin"],
+    "sys_platform": ["linux", "win32", "darwin", "cygwin", "interix"],
     "platform_machine": ["x86_64", "AMD64", "arm64", "aarch64"],
     "platform_system": ["Linux", "Windows", "Darwin"],
     "platform_python_implementation": ["CPython", "PyPy", "Jython"],
@@ -34,7 +34,7 @@ ALIASES = {"os_name": "os.name", "sys_platform": "sys.platform", "platform_machi
            "platform_python_implementation": "platform.python_implementation", "platform_version": "platform.version"}
 SUBSTR = {"platform_release": ["10", "5.1", "tegra", "23"], "platform_version": ["Debian", "tegra", "SMP", "19045"],
           "platform_machine": ["64", "arm", "x86"], "sys_platform": ["win", "lin", "x"]}
-EXTRAS = ["a", "b", "foo-bar", "Foo_Bar", "foo.bar", "c"]
+EXTRAS = ["a", "b", "foo-bar", "Foo_Bar", "foo.bar", "c", "inotify"]
 REL = ["5.10.0", "10", "23.1.0", "5.4", "6.0.0", "22"]
 
 
@@ -211,8 +211,9 @@ def string_leaf_universe() -> list[str]:
             out += [f'{name} == "{v}"', f'{name} != "{v}"']
         out += [f'{name} in "{vals[0]} {vals[1]}"', f'{name} not in "{vals[0]} {vals[1]}"', f'"{vals[0][:2]}" in {name}',
                 f'"{vals[0][:2]}" not in {name}']
-    for e in ["a", "b", "Foo_Bar"]:
+    for e in ["a", "b", "Foo_Bar", "inotify"]:
         out += [f'extra == "{e}"', f'extra != "{e}"']
+    out += ['sys_platform == "interix"', 'sys_platform != "interix"', 'os_name == "notinux"']
     return out
 
 
